@@ -48,7 +48,7 @@ DEFS = ('-DPACKAGE_NAME=\\"yara\\" -DPACKAGE_VERSION=\\"4.5.2\\" -DPACKAGE_STRIN
         '-DHAVE_OPENSSL_ASN1_H=1 -DHAVE_OPENSSL_CRYPTO_H=1 -DHAVE_OPENSSL_BIO_H=1 -DHAVE_OPENSSL_PKCS7_H=1 '
         '-DHAVE_OPENSSL_X509_H=1 -DHAVE_OPENSSL_SAFESTACK_H=1 -DHAVE_LIBCRYPTO=1 -DHAVE_SCAN_PROC_IMPL=1 '
         '-DUSE_LINUX_PROC -DDOTNET_MODULE -DHASH_MODULE -DMACHO_MODULE -DDEX_MODULE -DBUCKETS_128=1 '
-        '-DCHECKSUM_1B=1 -DYARA_VERIF')
+        '-DCHECKSUM_1B=1 -DYARA_VERIF -D_GNU_SOURCE')
 
 FLAVOURS = {
     "asan": "-O1 -g -fno-omit-frame-pointer -fsanitize=address,undefined -fno-sanitize-recover=all",
